@@ -223,6 +223,11 @@ class Model(object):
             raise AnalysisError("TimerService callable is neither a local closure nor an "
                                 "instance of a class of the package with __call__")
         fi, defframe = self.interp.closures[clos[0][1]]
+        for fr in reversed(getattr(self.interp, "closure_frames", {}).get(clos[0][1], [])):
+            if fr.fid in p.state.envs:
+                # the frame in which this path defined the closure
+                defframe = fr
+                break
         self._timer_qualname = fi.qualname
         self._timer_fi = fi
         env = p.state.envs.get(defframe.fid, {})
